@@ -42,7 +42,7 @@ def plan(tier):
 
 @st.composite
 def _case(draw, flavor="coro", cap=60):
-    spec = draw(G.design("coro", max_stmts=5, depth=3))
+    spec = draw(G.design("coro", max_stmts=7, depth=3))
     stim = draw(G.stimulus(spec, 40))
     return {"spec": spec, "stim": stim, "cap": cap}
 
